@@ -1178,7 +1178,8 @@ func init() {
 	register(&vf.Check{
 		ID:        "C12",
 		Technique: "runtime monitor: stamped datagrams verified on both ends with raw sockets, kernel state (getsockname/getsockopt on RawFd()) compared with every getter, membership model for the multicast peer with fence datagrams deciding non-delivery without timeouts",
-		Rule: "further senders may sit on another loopback address with the first sender's port; two probes per 200 cases park a packet-conn / multicast-peer write on a full send buffer (veth pair in the case's namespace, unresolvable neighbour) and require one datagram, one completion, never would-block; " +
+		Rule: "a read parked before a 70000-byte write that fails must still complete with the next datagram (packet conn and peer, two probes per 200 cases); a second packet conn of the IO context writes to a sink whenever a write of the first is parked; " +
+			"further senders may sit on another loopback address with the first sender's port; two probes per 200 cases park a packet-conn / multicast-peer write on a full send buffer (veth pair in the case's namespace, unresolvable neighbour) and require one datagram, one completion, never would-block; " +
 			"cases = (1/3) packet conn on bind forms {\"\", :0, 127.0.0.1:0, localhost:0}: bursts of 1-64 datagrams from 1-3 raw senders with sizes {1,2,17,1472,1473,8192,65507,random}, read with buffers smaller/equal/larger through ReadFrom / AsyncReadFrom (inline, forced deferred, armed before the burst), and WriteTo / AsyncWriteTo verified at the raw destination (half of them through one *net.UDPAddr updated in place); (2/3) multicast peer on bind forms {\"\", :0, interface address, group address, localhost:0}: getters vs getsockname/IP_MULTICAST_TTL/LOOP/IF after construction and after every SetLoop/SetTTL/SetOutboundIPv4, unicast fidelity through Read/AsyncRead/Write/AsyncWrite, two peers with parked reads in one poll batch where the first handler drains the other peer with a blocking Read, and on wildcard binds random sequences (4-30) of Join/JoinOn/JoinSource/Leave/LeaveSource/BlockSource/UnblockSource/SetAsyncReadBuffer over 3 groups with a probe (one datagram per group from the interface address, then a unicast fence) after two thirds of the steps; " +
 			"non-trivial = every packet-conn case and every peer case with at least one membership transition or unicast exchange; distinct = (kind, bind form, transitions)",
 		Assumptions: []string{
